@@ -293,6 +293,21 @@ def _settings(n, tier, extra=None):
     return settings(**kw)
 
 
+_JOURNAL = os.environ.get("VERIF_JOURNAL")
+
+
+def journal(sub_name, case):
+    """Remember the case about to run, so that the parent can report it if this process dies (segfault in the
+    code under test): written before every @given case / after every machine step."""
+    if not _JOURNAL:
+        return
+    try:
+        with open(_JOURNAL, "w") as f:
+            json.dump({"subcheck": sub_name, "case": jsonable(case)}, f)
+    except Exception:  # noqa
+        pass
+
+
 class _ShrinkGuard:
     """Bounds the time Hypothesis spends shrinking: after `budget` seconds past the first failure,
     every new candidate is declared passing without being run, and the best failing case so far is
@@ -328,6 +343,7 @@ def _execute(sub_name, runfn, case, ev, guard):
         raise g
     ctx = Ctx(ev, sub_name)
     t0 = time.time()
+    journal(sub_name, case)
     try:
         runfn(case, ctx)
     except Violation as v:
@@ -427,6 +443,7 @@ def drive_machine(sub_name, sub, n, seed_value, tier, ev):
             if self.skip:
                 return
             self.case["ops"].append([name, args])
+            journal(sub_name, self.case)
             try:
                 getattr(self.m, "do_" + name)(args)
                 self.m.invariant()
